@@ -3,7 +3,8 @@
 The REAL cpl.evolve / cpl.evolve2d are run with cpl.AsynchronousRule(Logged(inner), update_order=... | num_cells=...,
 randomize_each_cycle=...); np.random.shuffle is replaced (in this process, restored in finally) by a function that
 permutes in place according to the next scripted permutation, the same script the Coq model's oracle reads.
-Observables compared in Coq: the returned arrays and the (c, t) log of the wrapped rule."""
+Observables compared in Coq: the returned arrays and the (c, t) log of the wrapped rule.  oracle() additionally checks
+the frame property on the arrays and that the caller's update_order object is left as it was given."""
 import itertools
 
 from harness.driver import call_impl, cz, cnat, cbool, czlist, cgrid, chist, clist, copt, cres
@@ -13,16 +14,20 @@ ID = 'C12'
 COQ_IMPORTS = ('From CPL Require Import Model.Base Model.Rules Model.Engine Model.Evolve1D Model.Evolve2D Model.Async '
                'Corr.C12.\nOpen Scope Z_scope.')
 NONTRIVIAL_RULE = ('1D: every duplicate-free non-empty order over N <= 4 (all arrangements of all subsets), plain and '
-                   'randomized with scripted shuffles; random orders N <= 12 (N <= 16 thorough); the num_cells constructor; '
-                   '2D: shapes <= 3x3 with every subset of <= 3 coordinates (every arrangement in the thorough tier), random '
-                   'orders on shapes <= 4x4, Moore and von Neumann; wrapped rules Script and Lin; T up to 3L+2. '
+                   'randomized with scripted shuffles; random orders N <= 12 (N <= 16 thorough) given as list / tuple / '
+                   'range / ndarray, each with and without randomize_each_cycle; orders 0..k-1 on N > k cells; the num_cells '
+                   'constructor; 2D: shapes <= 3x3 with every subset of <= 3 coordinates (every arrangement in the thorough '
+                   'tier), given as list of tuples or tuple of tuples, random orders on shapes <= 4x4, Moore and von Neumann; '
+                   'one rule object reused for two evolve calls (1D and 2D); wrapped rules Script and Lin; T up to 3L+2. '
                    'non-trivial = the run returned arrays and at least one step rewrote a cell with a different value; '
                    'distinct = distinct case dicts')
 EXHAUSTIVE = {'quick': False, 'thorough': False}
 NOTES = ['np.random.shuffle is patched in the harness process to a scripted permutation (restored in finally)',
-         'orders over N <= 4 are enumerated completely in both tiers; the sampled part is N > 4 and the 2D random bucket']
-ASSUMPTIONS = ['update orders are duplicate-free lists of cells of the automaton (ints in 1D, coordinate tuples in 2D); '
-               'orders with duplicates or foreign cells are outside the property and are not generated',
+         'orders over N <= 4 are enumerated completely in both tiers; the sampled part is N > 4 and the 2D random bucket',
+         'oracle(): the caller\'s update_order (list, tuple, range, ndarray, tuple of tuples) is unchanged after the run']
+ASSUMPTIONS = ['update orders are duplicate-free sequences of cells of the automaton (ints in 1D, coordinate tuples in 2D); '
+               'orders with duplicates or foreign cells, and 2D coordinates given as lists or as an ndarray, are outside the '
+               'property and are not generated',
                'int64 automata and wrapped-rule results representable in the dtype',
                'the exception class for an empty update_order is not compared (any exception on both sides agrees)']
 TRUSTED = ['the patched np.random.shuffle applies the scripted index permutation p as x <- [x[p[0]], x[p[1]], ...]; '
@@ -59,30 +64,42 @@ def _grid(rng, R, C, k=2):
     return [[rng.randint(0, k - 1) for _ in range(C)] for _ in range(R)]
 
 
-def _case1(rng, kind, N, order, rand, r=None, T=None, hist_len=1, fam=None, form='list'):
+def _case1(rng, kind, N, order, rand, r=None, T=None, hist_len=1, fam=None, form='list', reuse=None, rng_args=None):
     L = len(order) if order is not None else N
     if r is None:
         r = rng.randint(1, min(N, 3))
     if T is None:
         T = 3 * L + 2
-    steps = max(T - 1, 0)
+    steps = max(T - 1, 0) + (max(reuse['T2'] - 1, 0) if reuse else 0)
     nper = (1 if order is None else 0) + (steps if rand else 0)
-    return {'kind': kind, 'dim': 1, 'rule': _rule(rng, 1, r, L, steps, fam), 'order': order, 'rand': rand,
-            'perms': _perms(rng, L, nper), 'r': r, 'hist': [_row(rng, N, rng.choice([2, 2, 3])) for _ in range(hist_len)],
-            'T': T, 'form': form}
+    c = {'kind': kind, 'dim': 1, 'rule': _rule(rng, 1, r, L, steps, fam), 'order': order, 'rand': rand,
+         'perms': _perms(rng, L, nper), 'r': r, 'hist': [_row(rng, N, rng.choice([2, 2, 3])) for _ in range(hist_len)],
+         'T': T, 'form': form}
+    if rng_args is not None:
+        c['range'] = list(rng_args)
+    if reuse:
+        c['reuse'] = dict(reuse)
+        if reuse['mode'] == 'fresh':
+            c['reuse']['hist2'] = [_row(rng, N, 3)]
+    return c
 
 
-def _case2(rng, kind, R, C, order, rand, r=None, T=None, hist_len=1, fam=None, nb=None):
+def _case2(rng, kind, R, C, order, rand, r=None, T=None, hist_len=1, fam=None, nb=None, form='list', reuse=None):
     L = len(order) if order is not None else R * C
     if r is None:
         r = rng.randint(1, max(1, min(R, C, 2)))
     if T is None:
         T = 3 * L + 2
-    steps = max(T - 1, 0)
+    steps = max(T - 1, 0) + (max(reuse['T2'] - 1, 0) if reuse else 0)
     nper = (1 if order is None else 0) + (steps if rand else 0)
-    return {'kind': kind, 'dim': 2, 'rule': _rule(rng, 2, r, L, steps, fam), 'order': order, 'rand': rand,
-            'perms': _perms(rng, L, nper), 'r': r, 'nb': nb or rng.choice(['Moore', 'von Neumann']),
-            'hist': [_grid(rng, R, C) for _ in range(hist_len)], 'T': T}
+    c = {'kind': kind, 'dim': 2, 'rule': _rule(rng, 2, r, L, steps, fam), 'order': order, 'rand': rand,
+         'perms': _perms(rng, L, nper), 'r': r, 'nb': nb or rng.choice(['Moore', 'von Neumann']),
+         'hist': [_grid(rng, R, C) for _ in range(hist_len)], 'T': T, 'form': form}
+    if reuse:
+        c['reuse'] = dict(reuse)
+        if reuse['mode'] == 'fresh':
+            c['reuse']['hist2'] = [_grid(rng, R, C, 3)]
+    return c
 
 
 def generate(rng, tier):
@@ -99,7 +116,7 @@ def generate(rng, tier):
                 if thorough:
                     for T in (1, 2, len(order) + 1, 2 * len(order) + 1):
                         yield _case1(rng, '1d/exhaustive/%s/T' % which, N, order, rng.random() < 0.3, T=T)
-    # ---- 1D, random larger
+    # ---- 1D, random larger; the order handed over as a list, a tuple or an ndarray, plain and randomized
     nmax = 16 if thorough else 12
     for _ in range(4000 if thorough else 420):
         N = rng.randint(5, nmax)
@@ -115,10 +132,39 @@ def generate(rng, tier):
         if k > 8:
             T = rng.choice([k + 2, 2 * k + 1, rng.randint(1, 3 * k + 2)])
         rand = rng.random() < 0.4
-        # a tuple cannot be shuffled in place (np.random.shuffle raises): tuples only without randomize_each_cycle
-        form = rng.choice(['list', 'list', 'array'] if rand else ['list', 'list', 'tuple', 'array'])
-        yield _case1(rng, '1d/random/%s' % ('full' if k == N else 'subset'), N, order, rand, T=T,
-                     hist_len=rng.choice([1, 1, 1, 2, 3]), form=form)
+        form = rng.choice(['list', 'tuple', 'array'])
+        yield _case1(rng, '1d/random/%s/%s%s' % ('full' if k == N else 'subset', form, '/randomized' if rand else ''),
+                     N, order, rand, T=T, hist_len=rng.choice([1, 1, 1, 2, 3]), form=form)
+    # ---- 1D, range objects as update_order (ascending, descending, strided), plain and randomized
+    for _ in range(600 if thorough else 80):
+        N = rng.randint(2, nmax)
+        step = rng.choice([1, 1, 2, 3, -1, -2])
+        if step > 0:
+            a = rng.randint(0, N - 1)
+            b = rng.randint(a + 1, N)
+        else:
+            a = rng.randint(0, N - 1)
+            b = rng.randint(-1, a - 1)
+        order = list(range(a, b, step))
+        k = len(order)
+        rand = rng.random() < 0.5
+        yield _case1(rng, '1d/range%s' % ('/randomized' if rand else ''), N, order, rand,
+                     T=rng.choice([3 * k + 2, 2 * k + 1, k + 2]), form='range', rng_args=(a, b, step))
+    # ---- 1D, an order that is a permutation of 0..k-1 on an automaton with MORE than k cells
+    prefix = [(3, 2), (2, 1), (4, 2), (4, 3), (5, 1), (6, 3), (8, 5), (12, 7), (21, 10)]
+    if thorough:
+        prefix += [(N, k) for N in range(2, 17) for k in range(1, N)]
+    for N, k in prefix:
+        for variant in range(3 if not thorough else 2):
+            order = list(range(k))
+            form, ra = 'list', None
+            if variant == 1:
+                rng.shuffle(order)
+            if variant == 2:
+                form, ra = 'range', (0, k, 1)
+            rand = variant == 1 and rng.random() < 0.5
+            yield _case1(rng, '1d/prefix_order', N, order, rand, r=1 if N > 12 else None,
+                         T=(3 * k + 2) if k <= 5 else 2 * k + 2, form=form, rng_args=ra)
     # ---- 1D, num_cells constructor (order = shuffled arange)
     for N in range(1, 9 if not thorough else 13):
         for rand in (False, True):
@@ -130,7 +176,8 @@ def generate(rng, tier):
             c = _case1(rng, '1d/empty_order', N, [0], False, T=T)
             c['order'] = []
             yield c
-    # ---- 2D, shapes <= 3x3, every subset of <= 3 coordinates
+    # ---- 2D, shapes <= 3x3, every subset of <= 3 coordinates (most proper subsets leave an unlisted cell that shares
+    #      its row index or its column index with a listed one, e.g. (2,2)-shaped grid with order [(0,0),(0,1)])
     for R in range(1, 4):
         for C in range(1, 4):
             cells = [(i, j) for i in range(R) for j in range(C)]
@@ -146,9 +193,20 @@ def generate(rng, tier):
                 for order in orders:
                     order = [list(x) for x in order]
                     which = 'full' if k == len(cells) else 'subset'
-                    yield _case2(rng, '2d/exhaustive/%s' % which, R, C, order, False, r=1)
+                    form = rng.choice(['list', 'list', 'tuple'])
+                    yield _case2(rng, '2d/exhaustive/%s' % which, R, C, order, False, r=1, form=form)
                     if thorough or rng.random() < 0.3:
-                        yield _case2(rng, '2d/exhaustive/%s/randomized' % which, R, C, order, True, r=1)
+                        yield _case2(rng, '2d/exhaustive/%s/randomized' % which, R, C, order, True, r=1,
+                                     form=rng.choice(['list', 'tuple']))
+    # ---- 2D, the docstring's form: a tuple of tuples, plain and randomized
+    for _ in range(400 if thorough else 60):
+        R, C = rng.randint(1, 4), rng.randint(1, 4)
+        cells = [[i, j] for i in range(R) for j in range(C)]
+        k = len(cells) if rng.random() < 0.3 else rng.randint(1, len(cells))
+        order = rng.sample(cells, k)
+        rand = rng.random() < 0.5
+        yield _case2(rng, '2d/tuple_of_tuples%s' % ('/randomized' if rand else ''), R, C, order, rand,
+                     T=rng.choice([k + 2, 2 * k + 1, 3 * k + 2 if k <= 5 else k + 3]), form='tuple')
     # ---- 2D, random <= 4x4 (full permutations included)
     for _ in range(1500 if thorough else 200):
         R, C = rng.randint(1, 4), rng.randint(1, 4)
@@ -164,9 +222,52 @@ def generate(rng, tier):
             for rand in (False, True):
                 for _ in range(2 if not thorough else 5):
                     yield _case2(rng, '2d/num_cells', R, C, None, rand, T=rng.choice([R * C + 2, 2 * R * C + 1]))
+    # ---- reuse: ONE rule object through two consecutive evolve calls; the first run's length is mostly not a
+    #      multiple of L, so that the second call starts in the middle of the cycle (curr <> 0)
+    for _ in range(900 if thorough else 150):
+        N = rng.randint(1, 8)
+        k = rng.randint(1, N)
+        order = None if rng.random() < 0.15 else rng.sample(range(N), k)
+        L = N if order is None else k
+        T1 = rng.choice([2, L, L + 2, rng.randint(1, 2 * L + 2)])
+        T2 = rng.choice([2, L + 1, rng.randint(1, 2 * L + 2)])
+        rand = rng.random() < 0.4
+        mode = rng.choice(['cont', 'cont', 'fresh'])
+        yield _case1(rng, 'reuse/1d/%s%s' % (mode, '/randomized' if rand else ''), N, order, rand, T=T1,
+                     form=rng.choice(['list', 'tuple']), reuse={'T2': T2, 'mode': mode})
+    for _ in range(600 if thorough else 100):
+        R, C = rng.randint(1, 3), rng.randint(1, 3)
+        cells = [[i, j] for i in range(R) for j in range(C)]
+        k = rng.randint(1, len(cells))
+        order = None if rng.random() < 0.15 else rng.sample(cells, k)
+        L = len(cells) if order is None else k
+        T1 = rng.choice([2, L, L + 2, rng.randint(1, 2 * L + 2)])
+        T2 = rng.choice([2, L + 1, rng.randint(1, 2 * L + 2)])
+        rand = rng.random() < 0.4
+        mode = rng.choice(['cont', 'cont', 'fresh'])
+        yield _case2(rng, 'reuse/2d/%s%s' % (mode, '/randomized' if rand else ''), R, C, order, rand, T=T1,
+                     form=rng.choice(['list', 'tuple']), reuse={'T2': T2, 'mode': mode})
 
 
 # ---------------------------------------------------------------- running the implementation
+def _caller_order(c, np):
+    """the object the caller hands to AsynchronousRule, and a function that reads it back as nested lists"""
+    form = c.get('form', 'list')
+    if c['dim'] == 1:
+        order = list(c['order'])
+        if form == 'tuple':
+            return tuple(order), lambda o: [int(x) for x in o]
+        if form == 'range' and c.get('range'):
+            return range(*c['range']), lambda o: [int(x) for x in o]
+        if form == 'array' and order:
+            return np.array(order), lambda o: [int(x) for x in o.tolist()]
+        return order, lambda o: [int(x) for x in o]
+    order = [tuple(x) for x in c['order']]
+    if form == 'tuple':
+        order = tuple(order)
+    return order, lambda o: [[int(x[0]), int(x[1])] for x in o]
+
+
 def run_impl(c):
     import numpy as np
     import cellpylib as cpl
@@ -186,26 +287,39 @@ def run_impl(c):
     dim = c['dim']
     inner = (twins.Logged1 if dim == 1 else twins.Logged2)(twins.make_rule(c['rule'], dim))
 
+    def logs():
+        if dim == 1:
+            return [[int(cc), int(t)] for (_, cc, t) in inner.log]
+        return [[int(cc[0]), int(cc[1]), int(t)] for (_, cc, t) in inner.log]
+
+    def ev(rule, hist, T):
+        if dim == 1:
+            return cpl.evolve(hist, timesteps=T, apply_rule=rule, r=c['r'])
+        return cpl.evolve2d(hist, timesteps=T, apply_rule=rule, r=c['r'], neighbourhood=c['nb'])
+
     def go():
         hist = np.array(c['hist'])
+        res = {}
         if c['order'] is None:
             num_cells = len(c['hist'][-1]) if dim == 1 else (len(c['hist'][-1]), len(c['hist'][-1][0]))
             rule = cpl.AsynchronousRule(apply_rule=inner, num_cells=num_cells, randomize_each_cycle=c['rand'])
+            order, read = None, None
         else:
-            if dim == 1:
-                order = list(c['order'])
-                if c.get('form') == 'tuple':
-                    order = tuple(order)
-                elif c.get('form') == 'array' and order:
-                    order = np.array(order)
-            else:
-                order = [tuple(x) for x in c['order']]
+            order, read = _caller_order(c, np)
+            res['caller_type_before'] = type(order).__name__
             rule = cpl.AsynchronousRule(apply_rule=inner, update_order=order, randomize_each_cycle=c['rand'])
-        if dim == 1:
-            out = cpl.evolve(hist, timesteps=c['T'], apply_rule=rule, r=c['r'])
-            return np.asarray(out).tolist(), [[int(cc), int(t)] for (_, cc, t) in inner.log]
-        out = cpl.evolve2d(hist, timesteps=c['T'], apply_rule=rule, r=c['r'], neighbourhood=c['nb'])
-        return np.asarray(out).tolist(), [[int(cc[0]), int(cc[1]), int(t)] for (_, cc, t) in inner.log]
+        out = ev(rule, hist, c['T'])
+        res['rows'] = np.asarray(out).tolist()
+        if c.get('reuse'):
+            ru = c['reuse']
+            hist2 = np.asarray(out) if ru['mode'] == 'cont' else np.array(ru['hist2'])
+            res['hist2'] = hist2.tolist()
+            res['rows2'] = np.asarray(ev(rule, hist2, ru['T2'])).tolist()
+        res['log'] = logs()
+        if order is not None:
+            res['caller'] = read(order)
+            res['caller_type'] = type(order).__name__
+        return res
 
     saved = np.random.shuffle
     np.random.shuffle = scripted_shuffle
@@ -214,7 +328,7 @@ def run_impl(c):
     finally:
         np.random.shuffle = saved
     if r[0] == 'ok':
-        return ['ok', [r[1][0], r[1][1]]]
+        return ['ok', r[1]]
     return list(r)
 
 
@@ -226,21 +340,34 @@ def _clog(log):
 def to_coq(c, obs):
     ps = clist(c['perms'], lambda p: clist(p, cnat))
     sp = twins.coq_rule_spec(c['rule'])
+    ru = c.get('reuse')
     if c['dim'] == 1:
         order = copt(c['order'], lambda o: clist(o, cnat))
-        o = cres(obs, lambda v: '(%s, %s)' % (cgrid(v[0]), _clog(v[1])))
+        if ru:
+            # 'cont': the second call is given what the first call returned (taken from the observation)
+            hist2 = obs[1]['hist2'] if obs[0] == 'ok' else (ru.get('hist2') or c['hist'])
+            o = cres(obs, lambda v: '(%s, %s, %s)' % (cgrid(v['rows']), cgrid(v['rows2']), _clog(v['log'])))
+            return '(C1DR %s %s %s %s %s %s %s %s %s %s)' % (sp, order, cbool(c['rand']), ps, cnat(c['r']), cgrid(c['hist']),
+                                                             cnat(c['T']), cgrid(hist2), cnat(ru['T2']), o)
+        o = cres(obs, lambda v: '(%s, %s)' % (cgrid(v['rows']), _clog(v['log'])))
         return '(C1D %s %s %s %s %s %s %s %s)' % (sp, order, cbool(c['rand']), ps, cnat(c['r']), cgrid(c['hist']),
                                                    cnat(c['T']), o)
     order = copt(c['order'], lambda o: clist(o, lambda x: '(%s, %s)' % (cnat(x[0]), cnat(x[1]))))
-    o = cres(obs, lambda v: '(%s, %s)' % (chist(v[0]), _clog(v[1])))
-    return '(C2D %s %s %s %s %s %s %s %s %s)' % (sp, order, cbool(c['rand']), ps, cnat(c['r']),
-                                                  cbool(c['nb'] == 'von Neumann'), chist(c['hist']), cnat(c['T']), o)
+    vn = cbool(c['nb'] == 'von Neumann')
+    if ru:
+        hist2 = obs[1]['hist2'] if obs[0] == 'ok' else (ru.get('hist2') or c['hist'])
+        o = cres(obs, lambda v: '(%s, %s, %s)' % (chist(v['rows']), chist(v['rows2']), _clog(v['log'])))
+        return '(C2DR %s %s %s %s %s %s %s %s %s %s %s)' % (sp, order, cbool(c['rand']), ps, cnat(c['r']), vn, chist(c['hist']),
+                                                            cnat(c['T']), chist(hist2), cnat(ru['T2']), o)
+    o = cres(obs, lambda v: '(%s, %s)' % (chist(v['rows']), _clog(v['log'])))
+    return '(C2D %s %s %s %s %s %s %s %s %s)' % (sp, order, cbool(c['rand']), ps, cnat(c['r']), vn, chist(c['hist']),
+                                                  cnat(c['T']), o)
 
 
 def nontrivial(c, obs):
     if obs[0] != 'ok':
         return False
-    rows = obs[1][0]
+    rows = obs[1]['rows']
     return any(rows[i] != rows[i + 1] for i in range(len(rows) - 1))
 
 
@@ -251,17 +378,38 @@ def _diff_cells(dim, a, b):
     return [[i, j] for i in range(len(a)) for j in range(len(a[0])) if a[i][j] != b[i][j]]
 
 
+def _frame(c, rows, H, T, log, allowed, offset, tag):
+    """rows = history returned by one evolve call that was given H rows and T timesteps; log = the wrapped rule's calls
+    made during that call; offset = number of steps the object had already served before this call"""
+    dim = c['dim']
+    steps = len(rows) - H
+    if steps != max(T - 1, 0):
+        return '%sexpected %d new rows, got %d' % (tag, max(T - 1, 0), steps)
+    if len(log) != steps:
+        return '%swrapped rule called %d times in %d steps' % (tag, len(log), steps)
+    for t in range(1, steps + 1):
+        prev, cur = rows[H - 1 + t - 1], rows[H - 1 + t]
+        changed = _diff_cells(dim, prev, cur)
+        cell, tt = log[t - 1][:-1], log[t - 1][-1]
+        if tt != t:
+            return '%sstep %d: wrapped rule called with t = %d' % (tag, t, tt)
+        if cell not in allowed:
+            return '%sstep %d: wrapped rule applied to an unlisted cell %s' % (tag, t, cell)
+        if c['order'] is not None and not c['rand']:
+            want = allowed[(offset + t - 1) % len(allowed)]
+            if cell != want:
+                return '%sstep %d: wrapped rule applied to %s, scheduled cell is %s' % (tag, t, cell, want)
+        for ch in changed:
+            if ch != cell:
+                return '%sstep %d: cell %s changed but the scheduled cell is %s' % (tag, t, ch, cell)
+    return None
+
+
 def oracle(c, obs):
     if obs[0] != 'ok':
         return None
-    rows, log = obs[1]
-    H = len(c['hist'])
-    steps = len(rows) - H
+    v = obs[1]
     dim = c['dim']
-    if steps != max(c['T'] - 1, 0):
-        return 'expected %d new rows, got %d' % (max(c['T'] - 1, 0), steps)
-    if len(log) != steps:
-        return 'wrapped rule called %d times in %d steps' % (len(log), steps)
     if c['order'] is None:
         if dim == 1:
             allowed = [[i] for i in range(len(c['hist'][-1]))]
@@ -269,25 +417,31 @@ def oracle(c, obs):
             allowed = [[i, j] for i in range(len(c['hist'][-1])) for j in range(len(c['hist'][-1][0]))]
     else:
         allowed = [[x] if dim == 1 else list(x) for x in c['order']]
-    for t in range(1, steps + 1):
-        prev, cur = rows[H - 1 + t - 1], rows[H - 1 + t]
-        changed = _diff_cells(dim, prev, cur)
-        cell, tt = log[t - 1][:-1], log[t - 1][-1]
-        if tt != t:
-            return 'step %d: wrapped rule called with t = %d' % (t, tt)
-        if cell not in allowed:
-            return 'step %d: wrapped rule applied to an unlisted cell %s' % (t, cell)
-        if c['order'] is not None and not c['rand']:
-            want = allowed[(t - 1) % len(allowed)]
-            if cell != want:
-                return 'step %d: wrapped rule applied to %s, scheduled cell is %s' % (t, cell, want)
-        for ch in changed:
-            if ch != cell:
-                return 'step %d: cell %s changed but the scheduled cell is %s' % (t, ch, cell)
+        # the caller's sequence is not ours to reorder (it is shuffled in place only inside the object)
+        if v.get('caller') != [x if dim == 1 else list(x) for x in c['order']]:
+            return 'the caller\'s update_order was %s and is %s after the run' % (c['order'], v.get('caller'))
+        if v.get('caller_type') != v.get('caller_type_before'):
+            return 'the caller\'s update_order changed its type'
+    n1 = max(c['T'] - 1, 0)
+    msg = _frame(c, v['rows'], len(c['hist']), c['T'], v['log'][:n1], allowed, 0, '')
+    if msg:
+        return msg
+    if c.get('reuse'):
+        msg = _frame(c, v['rows2'], len(v['hist2']), c['reuse']['T2'], v['log'][n1:], allowed, n1, 'second call: ')
+        if msg:
+            return msg
+    elif len(v['log']) != n1:
+        return 'wrapped rule called %d times in %d steps' % (len(v['log']), n1)
     return None
 
 
 def shrink(c):
+    if c.get('reuse'):
+        if c['reuse']['T2'] > 2:
+            yield dict(c, reuse=dict(c['reuse'], T2=c['reuse']['T2'] - 1))
+        if c['T'] > 2:
+            yield dict(c, T=c['T'] - 1)
+        return
     if c['T'] > 2:
         yield dict(c, T=c['T'] - 1)
         yield dict(c, T=2)
@@ -295,8 +449,32 @@ def shrink(c):
         yield dict(c, rule={'fam': 'script', 'vs': [1 + (i % 3) for i in range(c['T'] + 1)]})
     if len(c['hist']) > 1:
         yield dict(c, hist=c['hist'][-1:])
-    if c['order'] is not None and len(c['order']) > 1 and not c['rand']:
+    if c['order'] is not None and len(c['order']) > 1 and not c['rand'] and c.get('form') != 'range':
         yield dict(c, order=c['order'][:-1])
         yield dict(c, order=c['order'][1:])
     if c['dim'] == 1 and c['r'] > 1:
         yield dict(c, r=1, rule={'fam': 'script', 'vs': [1 + (i % 3) for i in range(c['T'] + 1)]})
+
+
+# ------------------------------------------------------------------ source tie (appended; harness/translate.py)
+# pre(): regenerate coq/gen/GenFuns.v from the Python source of the tree under test and, if it changed, re-prove
+# GenProps/GenFunsEquivC12.v, GenProps/C12Src.v and Properties/C12.v (theorem C12_source_tie) by hand.
+# extra_checks(): report a failed translation / equivalence proof (theorem names, translator or coqc error).
+from harness import translate as _translate
+_prev_pre = globals().get('pre')
+_prev_extra_checks = globals().get('extra_checks')
+TRUSTED = list(globals().get('TRUSTED', [])) + [_translate.TRUSTED_NOTE]
+NOTES = list(globals().get('NOTES', [])) + [
+    'coq/gen/GenFuns.v is regenerated from the Python source at the start of every run; theorem C12_source_tie proves '
+    'the regenerated definitions equal to the hand-written model for all inputs']
+
+
+def pre(ctx):
+    if _prev_pre is not None:
+        _prev_pre(ctx)
+    _translate.pre_hook(ctx, 'C12')
+
+
+def extra_checks(ctx):
+    out = list(_prev_extra_checks(ctx)) if _prev_extra_checks is not None else []
+    return out + _translate.extra_hook(ctx, 'C12')
